@@ -10,6 +10,7 @@ class AnchorMissing(Exception):
 class Program:
     def __init__(self, db):
         self.db = db
+        self.looked_up = set()      # function paths some rule has asked for by name (anchors: never unfolded)
         self.items = {}
         for i in db["items"]:
             self.items[i["path"]] = i
@@ -68,7 +69,36 @@ class Program:
     def find_fn(self, path):
         if path not in self.bodies:
             raise AnchorMissing("anchor `%s` not found among the crate's bodies" % path)
+        self.looked_up.add(path)
         return path
+
+    def unfoldable(self, keep):
+        """Local functions whose calls may be replaced by their bodies: free functions and inherent methods that are not
+        trait methods, not macro-generated, not recursive and that no rule anchors on (keep)."""
+        rec = set()
+        for comp in self.sccs(sorted(self.bodies)):
+            if len(comp) > 1:
+                rec.update(self.owner_fn(c) for c in comp)
+            elif comp[0] in [n for n, _ in self.edges().get(comp[0], [])]:
+                rec.add(self.owner_fn(comp[0]))
+        import json, os
+        inv = set()
+        try:
+            inv = set(json.load(open(os.path.join(os.path.dirname(os.path.dirname(os.path.abspath(__file__))), "spec", "inventory.json")))["functions"])
+        except Exception:
+            pass
+        out = set()
+        for p, it in self.items.items():
+            if p not in self.bodies or it["kind"] not in ("Fn", "AssocFn") or "::{closure#" in p:
+                continue
+            if p in inv:
+                continue        # a function the recognisers were confirmed against as a unit
+            if it.get("impl_trait") or self.is_expansion(p) or p in keep or p in rec:
+                continue
+            if "::tests::" in p or p.endswith("::main"):
+                continue
+            out.add(p)
+        return out
 
     def impl_method(self, trait, self_ty, method):
         """Body path of `impl <trait> for <self_ty> { fn method }`."""
@@ -78,6 +108,7 @@ class Program:
                 hits.append(p)
         if len(hits) != 1:
             raise AnchorMissing("impl %s for %s :: %s -> %d candidates" % (trait, self_ty, method, len(hits)))
+        self.looked_up.add(hits[0])
         return hits[0]
 
     def inherent_method(self, self_ty_prefix, method):
@@ -91,6 +122,7 @@ class Program:
                 hits.append(p)
         if len(hits) != 1:
             raise AnchorMissing("inherent %s::%s -> %d candidates" % (self_ty_prefix, method, len(hits)))
+        self.looked_up.add(hits[0])
         return hits[0]
 
     def trait_impl_methods(self, trait):
